@@ -166,7 +166,9 @@ def _metrics_candidates(spec, meta, inputs):
             yield s, meta, inputs
         for i, ent in enumerate(bl):
             bs = ent.get("bindings") or []
-            if "component" in ent and len(bs) > 1:
+            # single bindings only of functional components (one rank of a sequencer / intersector); the
+            # bindings of a memory belong together (coord + payload of one tensor, one style)
+            if "component" in ent and len(bs) > 1 and all("tensor" not in b for b in bs):
                 for j in range(len(bs)):
                     s = copy.deepcopy(spec)
                     del s["bindings"][o][i]["bindings"][j]
@@ -175,9 +177,14 @@ def _metrics_candidates(spec, meta, inputs):
 
 def candidates(spec, meta, inputs):
     if spec.get("bindings"):
+        # class M: only steps that keep the specification inside the generators' domain (rank orders concordant
+        # with the loop order, consistent eager subtrees, leaders first, ...): whole component entries, trailing
+        # Einsums, input sets, extents, non-zeros.  Dropping factors, ranks, mapping sections or single bindings
+        # can turn the spec into one the unchanged tree mis-compiles too (inconsistent bindings), and a replay
+        # file must not reproduce on the unchanged tree.
         for c in _metrics_candidates(spec, meta, inputs):
             yield c
-        for s, m, ins in _candidates(spec, meta, inputs):
+        for s, m, ins in _candidates(spec, meta, inputs, safe_only=True):
             if s is not spec:
                 s = _fix_bindings(s)
             yield s, m, ins
@@ -186,32 +193,32 @@ def candidates(spec, meta, inputs):
             yield c
 
 
-def _candidates(spec, meta, inputs):
+def _candidates(spec, meta, inputs, safe_only=False):
     # 1. fewer input sets
     if len(inputs) > 1:
         for i in range(len(inputs)):
             yield spec, meta, [inputs[i]]
     # 2. drop mapping sections
     for key in ("spacetime", "rank_order"):
-        if spec.get(key):
+        if spec.get(key) and not safe_only:
             s = copy.deepcopy(spec)
             s[key] = None
             yield s, meta, inputs
-    if spec.get("loop_order"):
+    if spec.get("loop_order") and not safe_only:
         for e in list(spec["loop_order"]):
             s = copy.deepcopy(spec)
             del s["loop_order"][e]
             if not s["loop_order"]:
                 s["loop_order"] = None
             yield s, meta, inputs
-    if spec.get("rank_order"):
+    if spec.get("rank_order") and not safe_only:
         for t in list(spec["rank_order"]):
             s = copy.deepcopy(spec)
             del s["rank_order"][t]
             yield s, meta, inputs
     # 3. cascades: drop last / first Einsum
     if len(spec["exprs"]) > 1:
-        for idx in (len(spec["exprs"]) - 1, 0):
+        for idx in ((len(spec["exprs"]) - 1,) if safe_only else (len(spec["exprs"]) - 1, 0)):
             s = copy.deepcopy(spec)
             dropped = s["exprs"].pop(idx)
             o = dense.output_name(dropped)
@@ -237,7 +244,7 @@ def _candidates(spec, meta, inputs):
             if r is not None:
                 yield s, meta, r
     # 4. partitioning: drop a rank key, drop a level
-    part = spec.get("partitioning") or {}
+    part = {} if safe_only else (spec.get("partitioning") or {})
     for e, d in part.items():
         for key, dirs in d.items():
             names = [x.strip() for x in key.strip("() ").split(",")]
@@ -272,7 +279,7 @@ def _candidates(spec, meta, inputs):
                 if r is not None:
                     yield s, meta, r
     # 5. symbolic sizes -> literals
-    syms = meta.get("syms") or {}
+    syms = {} if safe_only else (meta.get("syms") or {})
     for name, val in syms.items():
         s = copy.deepcopy(spec)
         changed = False
@@ -289,7 +296,7 @@ def _candidates(spec, meta, inputs):
             if r is not None:
                 yield s, m, r
     # 6. drop a term / a factor
-    for ei, expr in enumerate(spec["exprs"]):
+    for ei, expr in enumerate([] if safe_only else spec["exprs"]):
         lhs, rhs = expr.split("=", 1)
         if rhs.strip().startswith("take("):
             continue
